@@ -242,6 +242,8 @@ type frame struct {
 	params  []Val
 	panics  []*State // states reaching a panic edge (for recover modelling)
 	heads   []*State // loop-head states of the loops being executed (innermost last)
+	exitStates map[int]*State          // loop ordinal -> merged state of the edges leaving the loop
+	exitCtx    map[int]*ssa.BasicBlock // a block after the loop (for resolving local names)
 }
 
 type edge struct {
